@@ -3,7 +3,7 @@
 # change to a SCRATCH worktree of /repo (never to /repo itself), verifies the named functions with lzvc and
 # expects at least one obligation to fail (or the function to leave the verifiable subset). A pass of a mutated
 # function means a vacuity hole or an engine defect. Run after every engine change, together with
-# scripts/recheck_seeds.sh (the 90 seeded changes are the larger half of the corpus).
+# scripts/recheck_seeds.sh (the seeded changes are the larger half of the corpus).
 # Usage: scripts/selftest.sh            (exit 0: every mutation was noticed and the clean tree verifies)
 export GOFLAGS=-mod=mod GOPROXY=off GOSUMDB=off GOTOOLCHAIN=local
 V=/verif
